@@ -61,6 +61,13 @@ ROWS = [
  ("C10", "Decimal/inverse-broken", "fixed", "fixed-scale decimals beyond 28 digits", "a fixed-scale Decimal value with more than 28 digits was accepted and written, but reading its text raised InvalidOperation (quantize under the thread's default context); reported by a seeding sub-agent on the unchanged tree"),
  ("C08", "accepted/second-root", "fixed", "a second top-level element was only refused by the C implementation", "with the pure-Python xml.etree (no _elementtree accelerator; one shard in eight runs so) a body with a second top-level element returned the first element's tree; reported by a seeding sub-agent"),
  ("C04", "sonrq-credentials-rule-not-in-force/kwargs/SONRQ.none", "fixed", "SONRQ checked its credentials rule with assert", "under python -O SONRQ accepted neither or both of USERID+USERPASS / USERKEY (the rule was a pair of asserts inside try/except AssertionError); reported by a seeding sub-agent"),
+ ("C01", "constructor-rejects-valid-candidate/CONTRIBSECURITY", "fixed", "class rules counted an argument passed as None", "CONTRIBSECURITY / EXTDPMT / TAX1099R_V100 tested their own rules on the KEYS of kwargs: CONTRIBSECURITY(secid=..., pretaxcontribpct=None) and EXTDPMT(extdpmtdsc=None) were built, written, and refused when read back; a source passed as None beside one of the other kind was refused as 'mixed' (reported by a seeding sub-agent on the unchanged tree; C01 instances built with explicit keyword=None)"),
+ ("C01", "constructor-rejects-valid-candidate/OFX", "fixed", "OFX counted a message set passed as None", "OFX(signonmsgsrsv1=..., bankmsgsrqv1=None) refused as mixing requests and responses"),
+ ("C02", "cdata/other", "fixed", "whitespace between a tag and a CDATA section", "'<MEMO> <![CDATA[x]]></MEMO>' parsed as an EMPTY element (data dropped, nothing raised); blanks between ']]>' and the end tag were refused (also cdata/line-break-inside, cdata/two-sections-one-line and their /raises-ParseError variants; the layout had been left out of the renderer as unspecified - reported by a seeding sub-agent)"),
+ ("C08", "accepted/truncated", "fixed", "an unterminated CDATA section went unnoticed", "a valid body whose last data is a CDATA section quoting the end tags that follow it, cut off inside that section, was returned as a complete tree: re.finditer() skipped the unterminated section and matched the quoted end tags (reported by a seeding sub-agent)"),
+ ("C15", "wrong-server/different-org-fid", "fixed", "profile cache file of a client without ORG/FID", "a client without ORG/FID and one whose ORG/FID are the text 'None' (same URL) shared one cache file (str(None)); reported by a seeding sub-agent"),
+ ("C18", "persist/version/not-what-was-saved", "fixed", "ofxget tax1099 ignored --write", "'ofxget tax1099 ... --write' (and --savepass) saved nothing: the next run without the options used the old values (also persist/<any option>/not-what-was-saved after a tax1099 run; reported by a seeding sub-agent)"),
+ ("C02", "plain/raises-ParseError", "fixed", "XML empty-element tags were read as the start", "an aggregate without children written as an XML empty-element tag (<MEMO/>, legal in OFX 2.x) opened an element 'MEMO/' that nothing closed: the document was refused (also C07: an unknown empty element spelled that way; reported by a seeding sub-agent)"),
  ("C06", "caller-string-entity-decoded", "known", None, "a user id / password / account id / ORG / FID... that the CALLER passes and that contains an OFX entity sequence (e.g. password 'a&lt;b' or account 'x&amp;y') is entity-decoded by String.convert() when the request model is built, so the request carries 'a<b' / 'x&y' instead of what was supplied. Not repaired: the decode-on-assignment is by design shared between parsed text and Python values; a repair needs ~20 call sites in Client.py or an API change"),
  ("C15", "wrong-server/same-org-fid-different-url", "fixed", "FI profile cached from one server", "cache keyed by ORG-FID only: client of another URL sent A's DTPROFUP and used A's profile"),
 ]
